@@ -55,6 +55,8 @@ def _val(rng, kind_hint=None):
         c = rng.choice(QCLS)
         u = {"Length": ["m", "km", "mm"], "Duration": ["s", "min", "h"], "Speed": ["m/s", "km/h"], "Mass": ["kg", "g"], "Energy": ["J", "mJ"],
              "Torque": ["N.m", "lbf.ft"]}[c]
+        if rng.random() < 0.08:
+            return ["q", c, float("nan"), rng.choice(u)]      # not a number: inside no bounds
         if rng.random() < 0.25:
             # a value written in some unit whose SI value lies a hair above (or below) one of the bounds used by the specs
             fac = {"m": 1.0, "km": 1000.0, "mm": 0.001, "s": 1.0, "min": 60.0, "h": 3600.0, "m/s": 1.0, "km/h": 1 / 3.6, "kg": 1.0, "g": 0.001,
@@ -576,6 +578,34 @@ def run_case(case, ctx):
                             return
                         if got is not node.obj:
                             ctx.viol("remove-returns-other", {"op_index": opi, "op": op, "during": "a move"})
+                            return
+                        parent.children.remove(node)
+                        target.insert(node)
+                        flags["rm_or_model"] += 1
+                        if not walk(opi, op):
+                            return
+                        continue
+                if opi % 5 == 3 and node.kind == "map":
+                    # a sub-map (with everything below it) is taken out of its map and put into another one: remove, then add.
+                    # Every parameter below it is then found - and names itself - under the new path
+                    def _maps2(n):
+                        yield n
+                        for c in n.children:
+                            if c.kind == "map" and c is not node:
+                                yield from _maps2(c)
+                    target = next((m_ for m_ in _maps2(root) if m_ is not parent and m_ is not node and all(c.key != node.key for c in m_.children)), None)
+                    if target is not None:
+                        ctx.count("sub_maps_moved_to_another_map")
+                        try:
+                            got = parent.obj.remove(node.key)
+                            target.obj.add(got)
+                        except InvariantBroken:
+                            raise
+                        except Exception as e:
+                            ctx.viol("move:remove-then-add-raises", {"op_index": opi, "op": op, "exc": repr(e)})
+                            return
+                        if got is not node.obj:
+                            ctx.viol("remove-returns-other", {"op_index": opi, "op": op, "during": "a move of a sub-map"})
                             return
                         parent.children.remove(node)
                         target.insert(node)
